@@ -91,8 +91,10 @@ def r15_1(ctx: Ctx, rule: str = "R15.1") -> None:
                     continue
                 for h in tr.handlers:
                     names = {n.id for n in ast.walk(h.type) if isinstance(n, ast.Name)} if h.type is not None else {"BaseException"}
-                    if not names & {"Exception", "BaseException"}:
-                        why = "the handler around Worker.archive is not a catch-all"
+                    if not names & {"BaseException"}:
+                        # `except Exception` misses KeyboardInterrupt/SystemExit (and whatever else a source's read() raises outside Exception):
+                        # the member stays registered and the close() of the with block commits more members than streams
+                        why = "the handler around Worker.archive does not catch BaseException (an interrupt while the source is read leaves the member registered: close() then commits a header that cannot be read)"
                         continue
                     undone = _undoes(h, ctx, f)
                     hn = cfg.by_ast[h]
@@ -375,7 +377,104 @@ def r15_9(ctx: Ctx) -> None:
                   "so the archive that existed before the session cannot be opened any more and all its members are lost", construct="refusal without header in append mode")
 
 
+def r15_10(ctx: Ctx, rule: str = "R15.10") -> None:
+    """a session that fails in its FIRST step or in its LAST leaves an appended-to archive as it was: (a) Header.initialize raises its
+    'initialised' flag only after the folder's coder chain has been built (prepare_coderinfo dominates the assignment) - a chain that
+    cannot be built (AES without password, wrong filter order) otherwise leaves the flag set with no folder, and close() flushes the OLD
+    archive's last folder (AssertionError) after it has voided the start header; (b) in _write_flush every committing call behind
+    _void_start_header (flush_archive, _write_header) lies in a try whose catch-all handler, in append mode, writes the header the
+    archive had at open and re-raises - a header that cannot be written (time stamp out of range, header encryption without password)
+    otherwise costs every member the archive had."""
+    ini = ctx.prog.func("archiveinfo", "Header.initialize")
+    cfg = cfg_of(ini.node)
+    sets = [n for n in walk(ini.node) if isinstance(n, ast.Assign) and norm(n.targets[0]) == "self._initialized" and isinstance(n.value, ast.Constant) and n.value.value is True]
+    prep = [c for c in q.calls(ini) if attr_tail(c) == "prepare_coderinfo"]
+    ctx.floor(rule, len(sets), 1, "`self._initialized = True` in Header.initialize")
+    ctx.floor(rule, len(prep), 1, "prepare_coderinfo call in Header.initialize")
+    for a_ in sets:
+        ok = all(cfg.dominates(q.node_for(ini, p_), q.node_for(ini, a_)) for p_ in prep)
+        ctx.check(ok, rule, ini, a_, "the header counts as initialised only after the coder chain has been built",
+                  "Header.initialize sets `_initialized` before prepare_coderinfo has succeeded: when the filter chain cannot be built the first write call raises, but close() then takes "
+                  "the header for initialised, voids the start header and flushes the last folder of the OLD archive (`assert self.compressor`): the archive that existed before the "
+                  "append session can no longer be opened", construct="initialised before coder chain")
+    wf = shared.szf(ctx, "_write_flush")
+    commits = []
+    for c in q.calls(wf):
+        if attr_tail(c) not in ("flush_archive", "_write_header"):
+            continue
+        facts = q.facts_at(wf, c)
+        if any(pol and isinstance(cd, ast.Attribute) and cd.attr == "_broken" for cd, pol in facts):
+            continue  # the refusing arm (R15.9)
+        if any(isinstance(h, ast.ExceptHandler) and c in list(ast.walk(h)) for h in walk(wf.node)):
+            continue  # the restoring write itself
+        commits.append(c)
+    ctx.floor(rule, len(commits), 2, "committing calls in _write_flush")
+    for c in commits:
+        ok = False
+        for t in [t for t in walk(wf.node) if isinstance(t, ast.Try) and any(c in list(ast.walk(st)) for st in t.body)]:
+            for h in t.handlers:
+                broad = h.type is None or any(isinstance(x, ast.Name) and x.id in ("Exception", "BaseException") for x in ast.walk(h.type))
+                restores = [x for st in h.body for x in ast.walk(st) if isinstance(x, ast.Call) and attr_tail(x) == "_write_header"
+                            and any(pol and "mode" in norm(cd) for cd, pol in q.facts_at(wf, x))]
+                reraises = bool(h.body) and isinstance(h.body[-1], ast.Raise)
+                if broad and restores and reraises:
+                    ok = True
+        ctx.check(ok, rule, wf, c, f"`{attr_tail(c)}` failing in close() leaves an appended-to archive with the header it had at open",
+                  f"_write_flush calls `{attr_tail(c)}` after the start header has been voided with no handler that restores the old header: anything that makes it raise (a member's time stamp "
+                  "outside the FILETIME range, header encryption requested without a password, a coder that cannot be built) leaves the placeholder start header - every member the "
+                  "archive had before the append session is lost", construct=f"commit step {attr_tail(c)} without restore")
+
+
+def r15_11(ctx: Ctx) -> None:
+    """only what can be read like a file gets a data stream: every `f["emptystream"] = False` in _make_file_info (the member's source
+    will be opened and read by Worker.archive) stands under a POSITIVE kind test - `is_file()`, `S_ISREG(...)`, or a symbolic link that
+    is stored as a link (`is_symlink()` true, `dereference` false).  An `else` behind `S_ISDIR` lets a dereferenced link to a FIFO or
+    device through: the write call blocks for ever (or stores the special file), where write(fifo) raises 'Unsupported file type'."""
+    f = shared.szf(ctx, "_make_file_info")
+    sets = [n for n in walk(f.node) if isinstance(n, ast.Assign) and any(isinstance(t, ast.Subscript) and isinstance(t.slice, ast.Constant) and t.slice.value == "emptystream" for t in n.targets)
+            and isinstance(n.value, ast.Constant) and n.value.value is False]
+    ctx.floor("R15.11", len(sets), 3, "`emptystream = False` assignments in _make_file_info")
+    for a_ in sets:
+        facts = q.facts_at(f, a_)
+        regular = any(pol and isinstance(cd, ast.Call) and attr_tail(cd) in ("is_file", "S_ISREG") for cd, pol in facts)
+        link = any(pol and isinstance(cd, ast.Call) and attr_tail(cd) == "is_symlink" for cd, pol in facts) and \
+            any((not pol) and isinstance(cd, ast.Name) and cd.id == "dereference" for cd, pol in facts)
+        ctx.check(regular or link, "R15.11", f, a_, "a data stream is promised only for a regular file or a link stored as a link",
+                  "_make_file_info gives `emptystream = False` to whatever is not a directory: with dereference=True a symbolic link to a FIFO or device is registered as a regular "
+                  "member and Worker.archive opens it - write(link) blocks for ever instead of raising ValueError('Unsupported file type') as write(fifo) does",
+                  construct="data stream for an untested kind")
+
+
+def r15_12(ctx: Ctx) -> None:
+    """writeall() is ONE call: when an entry of the tree fails, the entries archived before it must not stay behind as members no
+    successful call wrote.  write() undoes only the failing member, so writeall has to do the rest: the walk stands in a try whose
+    catch-all handler takes the earlier entries back (or marks the session as one that cannot be completed), or a validating pass over the
+    tree precedes the walk."""
+    f = shared.szf(ctx, "writeall")
+    walks = [c for c in q.calls(f) if attr_tail(c) == "_writeall"]
+    ctx.floor("R15.12", len(walks), 1, "walk call in writeall")
+    for c in walks:
+        ok = False
+        for t in [t for t in walk(f.node) if isinstance(t, ast.Try) and any(c in list(ast.walk(st)) for st in t.body)]:
+            for h in t.handlers:
+                broad = h.type is None or any(isinstance(x, ast.Name) and x.id in ("Exception", "BaseException") for x in ast.walk(h.type))
+                acts = any(isinstance(x, ast.Attribute) and x.attr == "_broken" and isinstance(x.ctx, ast.Store) for x in ast.walk(h)) or \
+                    any(isinstance(x, ast.Call) and attr_tail(x) in ("pop", "truncate_to", "_rollback") for x in ast.walk(h))
+                if broad and acts:
+                    ok = True
+        cn = q.node_for(f, c)
+        cfg = cfg_of(f.node)
+        pre = [x for x in q.calls(f) if x is not c and isinstance(x.func, ast.Attribute) and norm(x.func.value) == "self" and "valid" in x.func.attr.lower()
+               and cfg.dominates(q.node_for(f, x), cn)]
+        ctx.check(ok or bool(pre), "R15.12", f, c, "a writeall() that fails part-way leaves no members of its own behind",
+                  "writeall() hands the tree to _writeall, which calls write() per entry; write() undoes only the entry that failed, and nothing undoes (or refuses to commit) the "
+                  "entries of the same call archived before it: after close the archive holds 'tree', 'tree/a.txt' although the writeall('tree') call raised", construct="writeall not all-or-nothing")
+
+
 def run(ctx: Ctx) -> None:
+    r15_12(ctx)
+    r15_11(ctx)
+    r15_10(ctx)
     r15_9(ctx)
     r15_8(ctx)
     r15_7(ctx)
